@@ -110,7 +110,9 @@ def make_case(rng, tier):
             S[:k, :k] = np.diag(s)
             x[0, p] = U @ S @ V.T
         c['x'] = x
-    if kind in ('eigh', 'eigh_rep', 'svd') and rng.random() < 0.5:
+    if kind in ('qr', 'qr_full', 'cholesky', 'eigh', 'eigh_rep') and rng.random() < 0.35:
+        c['out_seed'] = rng.randrange(1 << 30)      # caller-supplied result buffers holding stale non-zero data
+    if kind in ('eigh', 'eigh_rep', 'svd') and rng.random() < 0.5 and 'out_seed' not in c:
         # data not of order one: A(t) * 2^k with the documented threshold keyword scaled accordingly.  Scaling by a power
         # of two is exact in floating point, so the factors must be those of the unscaled matrix (eigen/singular values * 2^k)
         c['scale_log2'] = rng.choice([33, -33, 20, -20])
@@ -124,9 +126,20 @@ def check(c):
     x = x * scale
     A = UTPM(x.copy())
     tol = 1e-8
+    def stale(*shape):
+        r_ = np.random.RandomState(c['out_seed'] % (1 << 31))
+        return UTPM(np.round(r_.uniform(-4, 4, size=(D, P) + shape) * 8) / 8)
     try:
         with np.errstate(all='ignore'):
-            if kind == 'qr':
+            if 'out_seed' in c and kind == 'qr' and x.shape[2] >= x.shape[3]:
+                Q, R = UTPM.qr(A, out=(stale(x.shape[2], x.shape[3]), stale(x.shape[3], x.shape[3])))
+            elif 'out_seed' in c and kind == 'qr_full':
+                Q, R = UTPM.qr_full(A, out=(stale(x.shape[2], x.shape[2]), stale(x.shape[2], x.shape[3])))
+            elif 'out_seed' in c and kind == 'cholesky':
+                L = UTPM.cholesky(A, out=stale(x.shape[2], x.shape[3]))
+            elif 'out_seed' in c and kind in ('eigh', 'eigh_rep'):
+                l, Q = UTPM.eigh(A, out=(stale(x.shape[2]), stale(x.shape[2], x.shape[3])))
+            elif kind == 'qr':
                 Q, R = algopy.qr(A)
             elif kind == 'qr_full':
                 Q, R = algopy.qr_full(A)
